@@ -28,10 +28,19 @@ class _Mark:
 U = _Mark("unbound")
 E = _Mark("local")
 PARAM = _Mark("param")
+ATTR = _Mark("attr")
 REJECTED = []
+class _Obj:
+    def __getattr__(self, name):      # every attribute of the runtime value is the marker, whatever the scopes bind
+        return ATTR
+O = _Obj()
+L = [O]
+def G():
+    return O
 '''
 
-HEADER = "from zrt import P as _P, V as _V, S as _S, U as _U, E as _E, REJECTED as _R\n"
+HEADER = "from zrt import P as _P, V as _V, S as _S, U as _U, E as _E, REJECTED as _R, G as _g, L as _L\n"
+VALUE_ROOT = {"call": "_g()", "subscript": "_L[0]", "str": '"s"'}       # Scope.tla RootKinds -> root expression of `<root>.n`
 LIB_K = "class K:\n    class N: pass\n"
 
 
@@ -73,8 +82,20 @@ def binding_lines(kind: str, st: dict, n: str, own_path: str, guarded: bool, tag
     return [text]
 
 
-def probe_lines(key: str, n: str, suffix: list) -> list:
+def value_attr_sites(n: str, rks: list, target: str) -> list:
+    """`<root>.n` with a root that is not a name (attribute of a runtime value); target = 's_' or 'self.i_'."""
+    out = [f"    {target}v_{rk} = {VALUE_ROOT[rk]}.{n}" for rk in sorted(rks)]
+    if "call" in rks:
+        out.append(f"    {target}v_chain = _g().{n}.K")
+        if target == "s_":
+            out += [f"    @_g().{n}", "    def s_v_dec(): pass"]
+    return out
+
+
+def probe_lines(key: str, n: str, suffix: list, rks: list = ()) -> list:
     out = ["try:", f'    _P["{key}"] = {n}', "except NameError:", f'    _P["{key}"] = _U']
+    for rk in sorted(rks):        # what CPython evaluates `<root>.n` to: the attribute of the value (str: of its type)
+        out.append(f'_P["{key}/v_{rk}"] = ' + (f"{VALUE_ROOT[rk]}.{n}" if rk != "str" else f"type({VALUE_ROOT[rk]})"))
     for c in range(1, len(suffix) + 1):
         expr = ".".join([n] + suffix[:c])
         out += ["try:", f'    _P["{key}/c{c}"] = {expr}', "except (NameError, AttributeError):", f'    _P["{key}/c{c}"] = _U']
@@ -82,7 +103,7 @@ def probe_lines(key: str, n: str, suffix: list) -> list:
     return out
 
 
-def class_sites(n: str, suffix: list) -> list:
+def class_sites(n: str, suffix: list, rks: list = ()) -> list:
     out = [f's_str: "{n}"',       # stringized annotation: executed for real, evaluated later by inspect.get_annotations(eval_str=True)
            "if _S:",
            f"    s_ann: {n}",
@@ -99,15 +120,15 @@ def class_sites(n: str, suffix: list) -> list:
     for c in range(1, len(suffix) + 1):
         out.append(f"    s_c{c} = " + ".".join([n] + suffix[:c]))
     out += [f"    s_lam = lambda {n}: {n}", f"    s_cmp = [{n} for {n} in ()]"]
-    return out
+    return out + value_attr_sites(n, rks, "s_")
 
 
-def init_sites(n: str, suffix: list) -> list:
+def init_sites(n: str, suffix: list, rks: list = ()) -> list:
     out = ["if _S:", f"    self.i_ann: {n} = None", f"    self.i_val = {n}"]
     for c in range(1, len(suffix) + 1):
         out.append(f"    self.i_c{c} = " + ".".join([n] + suffix[:c]))
     out += [f"    self.i_lam = lambda {n}: {n}", f"    self.i_cmp = [{n} for {n} in ()]"]
-    return out
+    return out + value_attr_sites(n, rks, "self.i_")
 
 
 def ind(lines: list, k: int) -> list:
@@ -120,6 +141,7 @@ def render(env: dict) -> dict:
     mp = MOD_PATH[m]
     guarded = env["fam"] == "rel"
     suf = env["suffix"]
+    rks = env.get("rks", [])
     stm = env["stm"]
     files = {"zrt.py": ZRT}
     # library modules (everything but the site module); ancestors of M may bind n
@@ -148,8 +170,8 @@ def render(env: dict) -> dict:
             body.append(f'self.{n} = _V("{cls_path}.{n}")')
         if env["fnb"] == "limp":
             body += binding_lines("limp", stm["F"], n, cls_path + ".__init__", guarded, cls_key + ".init")
-        body += probe_lines(cls_key + ".init", n, suf.get(cls_key + ".init", []))
-        body += init_sites(n, suf.get(cls_key + ".init", []))
+        body += probe_lines(cls_key + ".init", n, suf.get(cls_key + ".init", []), rks)
+        body += init_sites(n, suf.get(cls_key + ".init", []), rks)
         out = [f"def __init__(self{param}):"] + ind(body, 1)
         out += [f"def m(self{param}):"] + ind(probe_lines(cls_key + ".m", n, []), 1)
         return out
@@ -166,14 +188,14 @@ def render(env: dict) -> dict:
     a_body = binding_lines(env["ab"], stm["A"], n, mp + ".A", guarded, "A")
     b_body = binding_lines(env["bb"], stm["B"], n, mp + ".A.B", guarded, "B")
     b_body += method_block("B", mp + ".A.B", env["bb"])
-    b_body += probe_lines("B", n, suf.get("B", []))
-    b_body += class_sites(n, suf.get("B", []))
+    b_body += probe_lines("B", n, suf.get("B", []), rks)
+    b_body += class_sites(n, suf.get("B", []), rks)
     a_body += ["class B(Z):"] + ind(b_body, 1)
     a_body += method_block("A", mp + ".A", env["ab"])
-    a_body += probe_lines("A", n, suf.get("A", []))
-    a_body += class_sites(n, suf.get("A", []))
+    a_body += probe_lines("A", n, suf.get("A", []), rks)
+    a_body += class_sites(n, suf.get("A", []), rks)
     lines += ["class A(Z):"] + ind(a_body, 1)
-    lines += probe_lines("mod", n, suf.get("mod", []))
-    lines += class_sites(n, suf.get("mod", []))
+    lines += probe_lines("mod", n, suf.get("mod", []), rks)
+    lines += class_sites(n, suf.get("mod", []), rks)
     files[MOD_FILE[m]] = "\n".join(lines) + "\n"
     return files
